@@ -81,7 +81,17 @@ func (g *Getter) Head(ctx context.Context, _ ...header.HeadOption[H]) (H, error)
 		g.headAns = nil
 		g.HeadCall++
 		g.mu.Unlock()
-		<-gate
+		select {
+		case <-gate:
+		case <-ctx.Done():
+			// nobody will release this request: it is not the call the driver meant to park
+			g.mu.Lock()
+			if g.headGate == gate {
+				g.headGate = nil
+			}
+			g.mu.Unlock()
+			return nil, ctx.Err()
+		}
 		if h == nil {
 			return nil, ErrScripted
 		}
@@ -101,6 +111,14 @@ func (g *Getter) Head(ctx context.Context, _ ...header.HeadOption[H]) (H, error)
 func (g *Getter) ParkNextHead() {
 	g.mu.Lock()
 	g.headPark = true
+	g.mu.Unlock()
+}
+
+// ClearPark withdraws ParkNextHead when the Head() call it was meant for never asked the getter
+// (e.g. because the Syncer considered its subjective head recent).
+func (g *Getter) ClearPark() {
+	g.mu.Lock()
+	g.headPark = false
 	g.mu.Unlock()
 }
 
@@ -413,7 +431,9 @@ func (f *Fixture) DeliverCancel(h H, cancelAt int) int {
 // its subjective head) until ReleaseHead; ans is what the getter answers then.
 func (f *Fixture) HeadCallP(ans H) int {
 	f.Getter.ParkNextHead()
-	return f.HeadCall(ans)
+	i := f.HeadCall(ans)
+	f.Getter.ClearPark() // total: a Head() call that never reached the getter must not leave the park armed for a later one
+	return i
 }
 
 func (f *Fixture) ReleaseHead() bool {
@@ -469,6 +489,7 @@ type Obs struct {
 	Err                       bool
 	Req                       *[2]uint64
 	HeadID                    uint64 // hash identity of the header the real Store serves at its head height
+	Top                       uint64 // highest of head+1..head+4 at which the real Store serves a header (head if none)
 }
 
 func (f *Fixture) Observe(ret int) Obs {
@@ -482,6 +503,14 @@ func (f *Fixture) Observe(ret int) Obs {
 		// what the Store serves at that height (not the head pointer it keeps in memory)
 		if at, err := f.Store.Store.GetByHeight(ctx, o.Head); err == nil && at != nil {
 			o.HeadID = f.Reg.ID(at.Hash())
+		}
+		o.Top = o.Head
+		for k := uint64(1); k <= 4; k++ {
+			c2, cancel2 := ShortCtx()
+			if at, err := f.Store.Store.GetByHeight(c2, o.Head+k); err == nil && at != nil {
+				o.Top = o.Head + k
+			}
+			cancel2()
 		}
 	}
 	f.Getter.SetHeadAnswer(nil)
@@ -503,7 +532,7 @@ func (o Obs) Term() string {
 	if o.Req != nil {
 		req = fmt.Sprintf("(Some (%d, %d))", o.Req[0], o.Req[1])
 	}
-	return fmt.Sprintf("(Obs %d %d %d %d %d %d %d %s %d %s %d)", o.Ret, o.Head, o.Local, o.LocalID, o.ID, o.From, o.To, emit.B(o.Err), o.StateHeight, req, o.HeadID)
+	return fmt.Sprintf("(Obs %d %d %d %d %d %d %d %s %d %s %d %d)", o.Ret, o.Head, o.Local, o.LocalID, o.ID, o.From, o.To, emit.B(o.Err), o.StateHeight, req, o.HeadID, o.Top)
 }
 
 // SyncWaitReturns reports whether SyncWait returns nil within a short virtual deadline.
